@@ -300,6 +300,33 @@ func fingerprint(r *h.Result) string {
 	return fmt.Sprintf("digest=%s steps=%d cases=%d race=%v viol=%s", r.Digest, r.Stats["steps"], r.Stats["cases"], hasRace, strings.Join(sigs, ";"))
 }
 
+// unsupportedNote names the constructs of the code under test that the instrumenter left alone (select, range over a
+// channel, sync.Cond / WaitGroup / Map): when a check ends in harness trouble, they are the first suspects.
+func unsupportedNote() string {
+	exe, err := os.Executable()
+	if err != nil {
+		return ""
+	}
+	b, err := os.ReadFile(filepath.Join(filepath.Dir(filepath.Dir(exe)), "sites.json"))
+	if err != nil {
+		return ""
+	}
+	var t struct {
+		Unsupported []struct {
+			Kind, File, Func string
+			Line             int
+		} `json:"unsupported"`
+	}
+	if json.Unmarshal(b, &t) != nil || len(t.Unsupported) == 0 {
+		return ""
+	}
+	var parts []string
+	for _, u := range t.Unsupported {
+		parts = append(parts, fmt.Sprintf("%s at %s:%d (%s)", u.Kind, u.File, u.Line, u.Func))
+	}
+	return "the code under test uses constructs the simulator does not steer: " + strings.Join(parts, "; ")
+}
+
 func clip(s string, n int) string {
 	if len(s) <= n {
 		return s
@@ -548,6 +575,9 @@ func supervise(prop, tier string) int {
 		for _, e := range harnessEr {
 			fmt.Fprintln(os.Stderr, "HARNESS:", e)
 		}
+		if n := unsupportedNote(); n != "" {
+			fmt.Fprintln(os.Stderr, "HARNESS:", n)
+		}
 		writeEvidence(d, tier, seed, done, stats, cover, samples, 0, wall, nil)
 		return 2
 	}
@@ -602,6 +632,9 @@ func supervise(prop, tier string) int {
 		// its own oracle for output that differs between identical executions), and not a state to call "held"
 		for _, e := range probeEr {
 			fmt.Fprintln(os.Stderr, "HARNESS:", e)
+		}
+		if n := unsupportedNote(); n != "" {
+			fmt.Fprintln(os.Stderr, "HARNESS:", n)
 		}
 		exit = 2
 	}
